@@ -119,6 +119,8 @@ class ScipyOptimizeDriver(Driver):
         Pre-calculated gradients of linear constraints.
     _desvar_array_cache : np.ndarray
         Cached array for setting design variables.
+    _last_x : np.ndarray or None
+        Design point of the last objective evaluation, i.e., the point the model is at.
     """
 
     def __init__(self, **kwargs):
@@ -153,6 +155,7 @@ class ScipyOptimizeDriver(Driver):
         self._dvlist = None
         self._lincongrad_cache = None
         self._desvar_array_cache = None
+        self._last_x = None
         self.fail = False
         self.iter_count = 0
         self._check_jac = False
@@ -238,6 +241,7 @@ class ScipyOptimizeDriver(Driver):
         self.iter_count = 0
         self._total_jac = None
         self._total_jac_linear = None
+        self._last_x = None
         self._desvar_array_cache = None
 
         self._check_for_missing_objective()
@@ -533,6 +537,12 @@ class ScipyOptimizeDriver(Driver):
 
         self._scipy_optimize_result = result
 
+        # leave the model at the design the optimizer returned
+        if getattr(result, 'x', None) is not None:
+            self._sync_model(np.asarray(result.x, dtype=float))
+            if self._exc_info is not None:
+                self._reraise()
+
         if hasattr(result, 'success'):
             self.fail = not result.success
             if self.fail:
@@ -554,6 +564,19 @@ class ScipyOptimizeDriver(Driver):
 
         return self.fail
 
+    def _sync_model(self, x_new):
+        """
+        Run the model at x_new unless it is the point of the last objective evaluation.
+
+        Parameters
+        ----------
+        x_new : ndarray
+            Array containing input values at the design point the optimizer asks about.
+        """
+        last = self._last_x
+        if last is None or not np.array_equal(last, x_new):
+            self._objfunc(x_new)
+
     def _objfunc(self, x_new):
         """
         Evaluate and return the objective function.
@@ -572,6 +595,9 @@ class ScipyOptimizeDriver(Driver):
         """
         model = self._problem().model
         dv_vec = self._vectors['design_var']
+
+        self._last_x = np.array(x_new, dtype=float, copy=True)
+        self._grad_cache = None
 
         try:
 
@@ -627,9 +653,9 @@ class ScipyOptimizeDriver(Driver):
         float
             Value of the constraint function.
         """
-        if self.options['optimizer'] in ['differential_evolution', 'COBYQA']:
-            # the DE opt will not have called this, so we do it here to update DV/resp values
-            self._objfunc(x_new)
+        # the optimizer may ask for constraint values at a point where it has not (yet) evaluated
+        # the objective
+        self._sync_model(x_new)
 
         return self._con_cache[name][idx]
 
@@ -698,6 +724,9 @@ class ScipyOptimizeDriver(Driver):
         prob = self._problem()
         model = prob.model
 
+        # make sure the model is at the point the optimizer asks about
+        self._sync_model(x_new)
+
         try:
             grad = self._compute_totals(of=self._obj_and_nlcons, wrt=self._dvlist,
                                         return_format=self._total_jac_format)
@@ -752,8 +781,9 @@ class ScipyOptimizeDriver(Driver):
         if meta['linear']:
             grad = self._lincongrad_cache
         else:
+            self._sync_model(x_new)
             if self._grad_cache is None:
-                # _gradfunc has not been called, meaning gradients are not
+                # _gradfunc has not been called at this point, meaning gradients are not
                 # used for the objective but are needed for the constraints
                 self._gradfunc(x_new)
             grad = self._grad_cache
